@@ -293,6 +293,35 @@ func c09Run(e *core.Env) {
 			report(op, x, nil, p0, cls, triv, msg)
 		}
 	}
+	// word-boundary precisions: EDGE coefficients (around 10^17..10^20, 10^37..10^39, 2^63, 2^64, 2^127, 2^128)
+	// quantized so that the kept coefficient has 19, 20, 38 or 39 digits
+	var hctx []CtxCase
+	for _, p := range []uint32{19, 20, 38, 39} {
+		for _, m := range Modes8 {
+			hctx = append(hctx, MkCtx(p, -6143, 6144, m, 0))
+		}
+	}
+	hx := Edge([]int32{-3, -1, 0, 2})
+	for ix := range hx {
+		if !e.Mine(int64(ix)) {
+			continue
+		}
+		if n := hx[ix].V.Coef.BitLen(); n < 55 || n > 140 {
+			continue
+		}
+		e.State()
+		for _, cc := range hctx {
+			for q := int32(-5); q <= 3; q++ {
+				q := q
+				cls, triv, msg := c09Quantize(hx[ix], q, cc)
+				report("Quantize", hx[ix], &q, cc, cls+"-p19..39", triv, msg)
+			}
+			for _, op := range []string{"RoundToIntegralValue", "RoundToIntegralExact"} {
+				cls, triv, msg := c09ToIntegral(op, hx[ix], cc)
+				report(op, hx[ix], nil, cc, cls+"-p19..39", triv, msg)
+			}
+		}
+	}
 	// NEAR-2^128 family: exact rescaling by 1..19 places whose product crosses 2^128 (or 2^64): Quantize to a
 	// smaller exponent and RoundToIntegral of a positive exponent, at precisions that let the product through
 	var nctx []CtxCase
@@ -386,9 +415,9 @@ func init() {
 		Rule:  "every (x, target exponent, context, rounding mode) point is executed and compared with an exact integer oracle (x/10^e rounded by the GDA decision table from the exact quotient and remainder); RoundToIntegralValue/Exact, Ceil and Floor on the same x; non-trivial = digits dropped, invalid, or a fractional operand",
 		Bounds: func(tier string) string {
 			if tier == "thorough" {
-				return "x in DENSE(4,7) + EDGE + LONG (129-300 digits); e in [-9,7] + {Etiny-1, Etiny, Emax, Emax+1}; p in {1,2,3,4,5,7} x 11 exponent ranges x 8 modes; Ceil/Floor also at precision 0; NEAR-2^128 (exact rescaling by 1..19 places across 2^64 / 2^128, p in {39,40,45}) and FAR (exponents up to 200000 apart) families"
+				return "x in DENSE(4,7) + EDGE + LONG (129-300 digits); e in [-9,7] + {Etiny-1, Etiny, Emax, Emax+1}; p in {1,2,3,4,5,7} x 11 exponent ranges x 8 modes; Ceil/Floor also at precision 0; EDGE coefficients of 55..140 bits at p in {19,20,38,39} x 8 modes x e in [-5,3]; NEAR-2^128 (exact rescaling by 1..19 places across 2^64 / 2^128, p in {39,40,45}) and FAR (exponents up to 200000 apart) families"
 			}
-			return "x in DENSE(3,5) + EDGE + LONG (129-300 digits); e in [-9,7] + {Etiny-1, Etiny, Emax, Emax+1}; p in {1,2,3} x 6 exponent ranges x 8 modes; Ceil/Floor also at precision 0; NEAR-2^128 (exact rescaling by 1..19 places across 2^64 / 2^128, p in {39,40,45}) and FAR (exponents up to 200000 apart) families"
+			return "x in DENSE(3,5) + EDGE + LONG (129-300 digits); e in [-9,7] + {Etiny-1, Etiny, Emax, Emax+1}; p in {1,2,3} x 6 exponent ranges x 8 modes; Ceil/Floor also at precision 0; EDGE coefficients of 55..140 bits at p in {19,20,38,39} x 8 modes x e in [-5,3]; NEAR-2^128 (exact rescaling by 1..19 places across 2^64 / 2^128, p in {39,40,45}) and FAR (exponents up to 200000 apart) families"
 		},
 		Run:    c09Run,
 		Replay: c09Replay,
